@@ -10,7 +10,7 @@ import vlib
 from vlib import (JVH, NCPU, SPEC, ToolError, build_harness, instantiate, log, read_lines, scratch, tlc_gen, tlc_mc)
 
 # the `bt` profile of the harness: 179-byte keys, 16-byte values (= a nested bucket's entry), 1 KiB pages
-SIZES = dict(PageSize=1024, LeafElem=32 + 179 + 16, BranchElem=24 + 179)
+SIZES = dict(PageSize=1024, LeafElem=32 + 179 + 16, BranchElem=24 + 179, BigElem=32 + 179 + 1500)
 
 
 def seed_inc(n):
@@ -34,8 +34,9 @@ def seed_sparse(n, drop):
     return seed_inc(n) + [[("del", k) for k in drop]]
 
 
-def _consts(nkeys, seed, max_ops, max_tx, emit, kinds=("put", "del"), opkeys=None, pinned=()):
+def _consts(nkeys, seed, max_ops, max_tx, emit, kinds=("put", "del"), opkeys=None, pinned=(), big=()):
     c = dict(SIZES)
+    c["BigKeys"] = set(big)
     c.update(NKeys=nkeys, Seed=[[list(op) for op in tx] for tx in seed], MaxOps=max_ops, MaxTx=max_tx, Emit=emit,
              Kinds=set(kinds), OpKeys=set(opkeys if opkeys is not None else range(1, nkeys + 1)), Pinned=set(pinned))
     return c
@@ -95,7 +96,7 @@ def shape_judgement(verdict, differing, nkeys, tag, limit=400):
     return len(items)
 
 
-def replay(verdict, beh, nkeys, tag, readback=True, jobs=None, judge_shapes=True):
+def replay(verdict, beh, nkeys, tag, readback=True, jobs=None, judge_shapes=True, big=()):
     """Runs every behaviour in the real code.  Reports property-level problems to the verdict;
     returns stats incl. how many page structures equal the model's."""
     build_harness()
@@ -112,7 +113,8 @@ def replay(verdict, beh, nkeys, tag, readback=True, jobs=None, judge_shapes=True
             for b in beh[j:j + chunk]:
                 f.write(json.dumps(b) + "\n")
         cmd = [JVH, "btree-run", "--in", fn, "--out", fn + ".out", "--nkeys", str(nkeys),
-               "--readback", "1" if readback else "0", "--scratch-tag", "%s-%d" % (tag, j)]
+               "--readback", "1" if readback else "0", "--scratch-tag", "%s-%d" % (tag, j),
+               "--big", ",".join(str(k) for k in sorted(big))]
         procs.append((subprocess.Popen(cmd, stdout=subprocess.DEVNULL, stderr=subprocess.PIPE, text=True), fn, j))
     st = dict(replays=0, with_problems=0, shape_equal=0, shape_differs=0, model_predicted_failures=0,
               model_failures_confirmed=0, shapes_judged=0)
@@ -182,7 +184,7 @@ def legs(verdict, tag, mcs=(), guards=(), gens=(), readback=True):
         kw = dict(kw)
         sim = kw.pop("simulate", None)
         beh, s, t = gen(name, nkeys, seed, ops, txs, simulate=sim, **kw)
-        st = replay(verdict, beh, nkeys, tag + "-" + name, readback=readback)
+        st = replay(verdict, beh, nkeys, tag + "-" + name, readback=readback, big=kw.get("big", ()))
         st.update(name=name, nkeys=nkeys, seed_txs=len(seed), max_ops=ops, max_tx=txs, behaviours=len(beh))
         ev["replay"].append(st)
         ev["states"] += s
